@@ -160,6 +160,8 @@ fn execute_iterations<'i>(
             trace_ctx.meet_iteration_start(ingredients.fold_id, value_pos),
             fold_to_string
         )?;
+        // :error: as it is outside of this fold (e.g. the failure caught by an enclosing xor)
+        let error_descriptor = exec_ctx.error_descriptor.clone();
         let result = fold(
             iterable,
             IterableType::Stream(ingredients.fold_id),
@@ -173,9 +175,8 @@ fn execute_iterations<'i>(
             // a failed iteration leaves its generation incomplete, whether the failure happens in this run
             // or is replayed from a failed state of the data (which marks the subgraph incomplete itself)
             exec_ctx.make_subgraph_incomplete();
-            // the failure ends here: :error: is no-error again and free for the next failure
-            exec_ctx.error_descriptor.enable_error_setting();
-            exec_ctx.error_descriptor.clear_error_object_if_needed();
+            // the failure ends here: :error: is again what it was before this iteration
+            exec_ctx.error_descriptor = error_descriptor;
         }
         throw_error_if_not_catchable(result)?;
         trace_to_exec_err!(trace_ctx.meet_generation_end(ingredients.fold_id), fold_to_string)?;
